@@ -32,8 +32,13 @@
 
 #define ASSUME(c) do { if (!(c)) { printf("REPLAY: assumption not met: %s (%s:%d)\n", #c, __FILE__, __LINE__); fflush(stdout); _exit(3); } } while (0)
 #define CHECK(c, msg) do { if (!(c)) { printf("REPLAY: CHECK FAILED: %s (%s:%d)\n", msg, __FILE__, __LINE__); fflush(stdout); _exit(77); } } while (0)
+#ifdef WITNESS
 #define REACHED(msg) do { printf("REPLAY: WITNESS REACHED: %s\n", msg); fflush(stdout); _exit(78); } while (0)
 #define COVER(c, msg) do { if (c) { REACHED(msg); } } while (0)
+#else
+#define REACHED(msg) ((void) 0)
+#define COVER(c, msg) ((void) 0)
+#endif
 
 /* Exactly-sized objects flush against a PROT_NONE page. VERIF_ALIGN_LEFT selects the side. */
 static inline void *guard_alloc(size_t size)
@@ -97,12 +102,28 @@ static inline void *poison_ptr(void)
 #define COVER(c, msg) ((void) 0)
 #endif
 
-/* exactly-sized objects: an array of n elements (n>=1) or, for n == 0, the one-past-the-end
-   pointer of a 1-element array (valid to form, any access is out of bounds). */
-#define EXACT_BYTES(name, n) uint8_t name##_obj[(n) > 0 ? (n) : 1]; uint8_t *name = (n) > 0 ? name##_obj : name##_obj + 1
-#define EXACT_CHARS(name, n) char name##_obj[(n) > 0 ? (n) : 1]; char *name = (n) > 0 ? name##_obj : name##_obj + 1
+/* exactly-sized objects: an array of n elements (n>=1) or, for n == 0, a zero-sized dynamic
+   object (any access is out of bounds; unlike a one-past-the-end pointer its comparison
+   with NULL is decided by constant propagation, which keeps symex from exploring dead paths). */
+#define EXACT_BYTES(name, n) uint8_t name##_obj[(n) > 0 ? (n) : 1]; uint8_t *name = (n) > 0 ? name##_obj : (uint8_t *) __CPROVER_allocate(0, 0)
+#define EXACT_CHARS(name, n) char name##_obj[(n) > 0 ? (n) : 1]; char *name = (n) > 0 ? name##_obj : (char *) __CPROVER_allocate(0, 0)
 #define EXACT_ARRAY(type, name, cnt) type name##_obj[(cnt) > 0 ? (cnt) : 1]; type *name = name##_obj
 
+#endif
+
+/* SPAN_IN(ptr, len, base, n): the span [ptr, ptr+len) lies inside the n-byte object starting at base */
+#ifdef NATIVE_REPLAY
+#define SPAN_IN(ptr, len, base, n) \
+    ((uintptr_t)(ptr) >= (uintptr_t)(base) && (uintptr_t)(ptr) <= (uintptr_t)(base) + (size_t)(n) && \
+     (size_t)(len) <= (size_t)(n) - (size_t)((uintptr_t)(ptr) - (uintptr_t)(base)))
+#define PTR_EQ(a, b) ((uintptr_t)(a) == (uintptr_t)(b))
+#else
+#define SPAN_IN(ptr, len, base, n) \
+    (__CPROVER_POINTER_OBJECT(ptr) == __CPROVER_POINTER_OBJECT(base) && \
+     __CPROVER_POINTER_OFFSET(ptr) >= __CPROVER_POINTER_OFFSET(base) && \
+     (size_t)(__CPROVER_POINTER_OFFSET(ptr) - __CPROVER_POINTER_OFFSET(base)) <= (size_t)(n) && \
+     (size_t)(len) <= (size_t)(n) - (size_t)(__CPROVER_POINTER_OFFSET(ptr) - __CPROVER_POINTER_OFFSET(base)))
+#define PTR_EQ(a, b) ((a) == (b))
 #endif
 
 struct in_s;
